@@ -426,6 +426,11 @@ func CreateDB(dbName string) error {
 }
 
 func (rs *RelationService) CreateTable(r *Relation, tableName string) error {
+	// changing the catalog must not overlap with the background page flush
+	// (or with any other statement)
+	rs.fs.lockExclusive()
+	defer rs.fs.unlockExclusive()
+
 	_, err := rs.getRelationFileOffset(tableName)
 	if err != ErrTableNotExist {
 		return ErrTableAlreadyExist
@@ -448,7 +453,7 @@ func (rs *RelationService) CreateTable(r *Relation, tableName string) error {
 		return err
 	}
 
-	return rs.fs.flushPages()
+	return rs.fs.flushPagesLocked()
 }
 
 // validateCatalogRows checks that the page table row and the schema table rows
